@@ -49,12 +49,33 @@ def clash_known():
         return False
 
 
+def set_fields(o):
+    """Which option fields an opts token sets: (ignore?, sample_count?)."""
+    if o == "-":
+        return (False, False)
+    return (o[0] in "tf", len(o) > 1)
+
+
 def has_clash(reg):
     """A generic function's key (module path + raw name) is a path prefix of an entry that is not its own
     instantiation, or two group entries have the same key."""
     keys = [tuple(g["modpath"].split("::") + [g["raw"]]) for g in reg.groups]
     if len(set(keys)) != len(keys):
-        return True
+        # Two generic functions of the same name under one module path (nested in different fn bodies) share one
+        # node whose slot holds whichever group was registered last.  As long as both are generic, show the same
+        # display name and set exactly the same option fields, every leaf's own options still decide everything
+        # (child over parent) and the result is the intended one; otherwise the winner's settings leak (F8 class).
+        byk = {}
+        for g, k in zip(reg.groups, keys):
+            byk.setdefault(k, []).append(g)
+        for k, gs in byk.items():
+            if len(gs) > 1:
+                if any(g["generic"] is None for g in gs):
+                    return True
+                if len({g["display"] for g in gs}) > 1:
+                    return True
+                if len({set_fields(g["opts"]) for g in gs}) > 1:
+                    return True
     paths = [tuple(b["modpath"].split("::")) for b in reg.benches]
     for g in reg.groups:
         if g["generic"] is not None:
@@ -68,7 +89,8 @@ def has_clash(reg):
             if p[:len(key)] == key:
                 return True
         for h in reg.groups:
-            if h is g:
+            if h is g or (h["generic"] is not None and tuple(h["modpath"].split("::") + [h["raw"]]) == key):
+                # (same-key generic groups were judged above)
                 continue
             p = tuple(h["modpath"].split("::") + ([h["raw"]] if h["generic"] is not None else []))
             if h["generic"] is not None and p[:len(key)] == key:
@@ -105,6 +127,26 @@ def prefix_named_cases():
     return out
 
 
+def same_name_generic_cases():
+    """Two generic functions `inner` nested in different fn bodies of one module (same module path and raw name), both
+    setting `ignore` (differently) and optionally the same other field: each must keep its own options, in every
+    registration order and under every flag."""
+    out = []
+    for (o1, o2) in [("t", "f"), ("f", "t"), ("t", "t"), ("t3", "f5"), ("f2", "t7"), ("-", "n"), ("n", "-")]:
+        for order in (0, 1):
+            for flag in "noy":
+                r = T.Reg()
+                r.bench("cr::m", "plain")
+                a = r.generic_fn("cr::m", "inner", types=[0, 6], opts=o1)
+                b = r.generic_fn("cr::m", "inner", types=[1], consts=[("i", 1), ("i", 2)], opts=o2, kind="i", vals=[4, 5])
+                r.group("cr", "m", display="Mod M", opts="t" if flag == "o" else "-")
+                if order:
+                    r.groups.reverse()
+                assert not has_clash(r)
+                out.append(r.line("TRL", ign=flag))
+    return out
+
+
 def nt(case, model):
     return "=C" in model
 
@@ -124,6 +166,9 @@ def clash_programs():
         P.Prog("e2e_col1", [M("foo", [F("a")], group=dict(name="Foo Group", opts=dict(ignore=True))),
                             F("foo", types=[0, 1], opts=dict(sample_count=5))]),
         P.Prog("e2e_col3", [M("foo", [F("a")]), F("foo", types=[0, 1], name="renamed", opts=dict(ignore=True))]),
+        # same-named generic functions in different fn bodies, one leaving `ignore` unset: it takes the other's when that one wins the slot
+        P.Prog("e2e_col4", [dict(k="N", fname="first", items=[F("inner", types=[0], opts=dict(ignore=True))]),
+                            dict(k="N", fname="second", items=[F("inner", types=[1])])]),
     ]
 
 
@@ -193,6 +238,8 @@ def streams(tier, rng):
     if corpus:
         out.append(Stream("corpus", "c12", corpus, nontrivial=nt))
     out.append(Stream("prefix-named-modules", "c12", prefix_named_cases(), nontrivial=nt))
+    out.append(Stream("same-named-generic-fns", "c12", same_name_generic_cases(), nontrivial=nt,
+                      describe="generic functions of one name nested in different fn bodies (one module path), same option fields set differently"))
     out.append(Stream("synthetic-permutations", "c12", syn, nontrivial=nt,
                       hist={"cases": len(syn), "name_clash_cases_set_aside": len(clash)}))
     out.append(Stream("real-crates", "c12", real, nontrivial=nt, impl_runner=build_then_run(progs), impl_timeout=900,
